@@ -71,10 +71,11 @@ def fam_coverage(ctx):
                        "shape-reading features changed: coq/Shape/Coverage.v does not map it to a model + theorem (or to 'differential only')")
     ctx.obligation("completeness: every regenerated evaluator / rule unit has a Coverage.v entry with the same shape-reading features "
                    "(theorems for every valuation, or differential-only with a reason)", not unc, ", ".join(unc[:8]))
-    missing = [t for t in cited if t not in ctx.theorems]
+    # (when Props/C09*.v did not build, check_props has reported it and recorded no theorem: nothing to look names up in)
+    missing = [t for t in cited if t not in ctx.theorems] if ctx.theorems else []
     for t in missing:
         ctx.tie_broken("proof", f"Coverage:{t}", f"Coverage.v cites {t}, which is not a theorem of Props/C09*.v")
-    ctx.obligation(f"completeness: the {len(cited)} theorems cited by Coverage.v are theorems of Props/C09*.v accepted by coqc", not missing,
+    ctx.obligation(f"completeness: the {len(cited)} theorems cited by Coverage.v are theorems of Props/C09*.v accepted by coqc", bool(ctx.theorems) and not missing,
                    ", ".join(missing[:8]))
     nums = [int(x) for x in re.findall(r"\d+", vals[2])]
     if users is not None:
